@@ -11,7 +11,8 @@ import (
 // Op is one completed file operation.
 type Op struct {
 	Client int
-	Kind   string // "read", "write", "size"
+	Kind   string // "read", "write", "size"; "pread", "pwrite": at the handle's own position, which they advance
+	Handle int    // pread/pwrite: which handle's position
 	Off    int
 	Data   string // write: data written; read: data returned
 	N      int    // read: requested length; size: returned size
@@ -25,18 +26,49 @@ func (o Op) String() string {
 		return fmt.Sprintf("c%d read(%d,%d)=%q [%d,%d]", o.Client, o.Off, o.N, o.Data, o.Call, o.Return)
 	case "write":
 		return fmt.Sprintf("c%d write(%d,%q) [%d,%d]", o.Client, o.Off, o.Data, o.Call, o.Return)
+	case "pread":
+		return fmt.Sprintf("c%d h%d.Read(%d)=%q [%d,%d]", o.Client, o.Handle, o.N, o.Data, o.Call, o.Return)
+	case "pwrite":
+		return fmt.Sprintf("c%d h%d.Write(%q) [%d,%d]", o.Client, o.Handle, o.Data, o.Call, o.Return)
 	}
 	return fmt.Sprintf("c%d size()=%d [%d,%d]", o.Client, o.N, o.Call, o.Return)
 }
 
 // Linearizable reports whether the history can be explained by one sequential order on a plain
 // byte-array file with the given initial content.
+type fileState struct {
+	s   string
+	pos [4]int // positions of up to four handles
+}
+
 func Linearizable(initial string, ops []Op) bool {
 	model := porcupine.Model{
-		Init: func() interface{} { return initial },
+		Init: func() interface{} { return fileState{s: initial} },
 		Step: func(state, input, output interface{}) (bool, interface{}) {
-			s := state.(string)
+			fs := state.(fileState)
+			s := fs.s
 			o := input.(Op)
+			switch o.Kind {
+			case "pread":
+				p := fs.pos[o.Handle]
+				end := min(p+o.N, len(s))
+				want := ""
+				if p < len(s) {
+					want = s[p:end]
+				}
+				fs.pos[o.Handle] = p + len(want)
+				return want == o.Data, fs
+			case "pwrite":
+				p := fs.pos[o.Handle]
+				b := []byte(s)
+				for len(b) < p+len(o.Data) {
+					b = append(b, 0)
+				}
+				copy(b[p:], o.Data)
+				fs.s = string(b)
+				fs.pos[o.Handle] = p + len(o.Data)
+				return true, fs
+			}
 			switch o.Kind {
 			case "read":
 				end := o.Off + o.N
@@ -47,20 +79,21 @@ func Linearizable(initial string, ops []Op) bool {
 				if o.Off < len(s) {
 					want = s[o.Off:end]
 				}
-				return want == o.Data, s
+				return want == o.Data, fs
 			case "write":
 				b := []byte(s)
 				for len(b) < o.Off+len(o.Data) {
 					b = append(b, 0)
 				}
 				copy(b[o.Off:], o.Data)
-				return true, string(b)
+				fs.s = string(b)
+				return true, fs
 			case "size":
-				return o.N == len(s), s
+				return o.N == len(s), fs
 			}
-			return false, s
+			return false, fs
 		},
-		Equal: func(a, b interface{}) bool { return a.(string) == b.(string) },
+		Equal: func(a, b interface{}) bool { return a.(fileState) == b.(fileState) },
 	}
 	var h []porcupine.Operation
 	for _, o := range ops {
